@@ -260,6 +260,14 @@ def run(index: RepoIndex, rep) -> None:
             check_ro(fn, {fn.node.args.args[0].arg} if name.endswith('make_visible') else set(),
                      'visibility helper')
     for rel, name in READ_ONLY_FUNCS:
+        if name.endswith(('.__eq__', '.__hash__')):
+            # generated by @dataclass when absent: nothing to read
+            cn = name.split('.')[0]
+            c_ = index.module(rel).classes.get(cn)
+            if c_ is not None and name.split('.')[1] not in c_.methods and \
+                    any(src(d).startswith('dataclass') for d in c_.node.decorator_list):
+                rep.holds('C03.R2', f'{rel}:{name}', 'generated by @dataclass')
+                continue
         fn = index.func(rel, name)
         allowed = set()
         check_ro(fn, allowed, 'read-only function')
@@ -309,6 +317,23 @@ def run(index: RepoIndex, rep) -> None:
 
     # ---------------------------------------------------------------- R4
     memo_rules(index, rep, 'C03.R4', eff)
+
+    # ---------------------------------------------------------------- R7
+    rep.rule('C03.R7', 'no default argument is a constructed object: it would be one instance '
+             'shared by every call, hence by every state it is stored into', floor=1)
+    n_fn = 0
+    for fn_ in index.all_functions(PKG):
+        n_fn += 1
+        a_ = fn_.node.args
+        for d_ in list(a_.defaults) + [k for k in a_.kw_defaults if k is not None]:
+            if isinstance(d_, (ast.Call, ast.List, ast.Dict, ast.Set, ast.ListComp,
+                               ast.DictComp, ast.SetComp)):
+                rep.violation('C03.R7', fn_.relpath, fn_.short, d_.lineno, src(d_),
+                              f'default argument `{src(d_)[:60]}` of {fn_.short} is evaluated '
+                              f'once at import: every call that uses it stores the same object '
+                              f'(two states, or a state and its successor, would share a '
+                              f'mutable component)')
+    rep.holds('C03.R7', 'scan', f'{n_fn} functions: no constructed default argument')
 
     # ---------------------------------------------------------------- R6
     component_decorators(index, rep, 'C03.R6')
@@ -412,6 +437,14 @@ def eq_hash(index: RepoIndex, rep, rule: str, eff) -> None:
                                ('gym_gridverse/agent.py', 'Agent', set())):
         c = index.cls(rel, cname)
         eq, hs = c.methods.get('__eq__'), c.methods.get('__hash__')
+        decs_ = [src(d) for d in c.node.decorator_list]
+        dc_ = [d for d in decs_ if d.startswith('dataclass')]
+        if eq is None and hs is None and dc_ and 'eq=False' not in dc_[0] and \
+                ('frozen=True' in dc_[0] or 'unsafe_hash=True' in dc_[0]):
+            # generated structural equality and hash over the same fields; fields excluded
+            # from comparison are excluded from the hash as well
+            rep.holds(rule, f'{rel}:{cname}', f'{cname} is a dataclass with generated eq/hash')
+            continue
         if eq is None or hs is None:
             rep.violation(rule, rel, cname, c.node.lineno, cname,
                           f'{cname} lacks __eq__ or __hash__: equal copies would not hash alike')
